@@ -258,6 +258,15 @@ impl<'w> FnTr<'w> {
                 let n = match *el { RTy::Flat(n) => n, _ => unreachable!() };
                 Ok(RTy::VecList(Box::new(self.packed_type(&n)?)))
             }
+            // `Result<S, E>` / `Option<S>` of a flattened struct: the packed value
+            RTy::Res(t, e) if self.bits && matches!(*t, RTy::Flat(_)) => {
+                let n = match *t { RTy::Flat(n) => n, _ => unreachable!() };
+                Ok(RTy::Res(Box::new(self.packed_type(&n)?), e))
+            }
+            RTy::Opt(t) if self.bits && matches!(*t, RTy::Flat(_)) => {
+                let n = match *t { RTy::Flat(n) => n, _ => unreachable!() };
+                Ok(RTy::Opt(Box::new(self.packed_type(&n)?)))
+            }
             t => Ok(t),
         }
     }
@@ -331,6 +340,7 @@ fn to_bits(world: &World, t: RTy) -> RTy {
         RTy::VecFn(t) => RTy::VecFn(Box::new(to_bits(world, *t))),
         RTy::VecList(t) => RTy::VecList(Box::new(to_bits(world, *t))),
         RTy::Tuple(ts) => RTy::Tuple(ts.into_iter().map(|t| to_bits(world, t)).collect()),
+        RTy::Res(t, e) => RTy::Res(Box::new(to_bits(world, *t)), e),
         // a struct regenerated with `Int` fields (`Move`) is flattened in a bit-manipulating function (its `u64`
         // fields become `UInt64` parameters)
         RTy::Struct(n) if world.structs.get(&n).map(|s| !s.bits).unwrap_or(false) => RTy::Flat(n),
